@@ -380,7 +380,7 @@ func checkTransparency(c Case) Result {
 	}
 	// outcome of the structured shapes, for the evidence
 	for _, t := range c.Tags {
-		for _, g := range []string{"excursion:", "sumtree:"} {
+		for _, g := range []string{"excursion:", "sumtree:", "override:"} {
 			if strings.HasPrefix(t, g) {
 				for _, l := range res.Labels {
 					if strings.HasPrefix(l, "gen:both-") || l == "gen:classes-differ" || strings.HasPrefix(l, "parse:") {
